@@ -20,7 +20,7 @@ for d in $IDS; do
   case "$d" in C13b|C07c|C08d|C11d|C01e|C02e|C01f|C04f|C09f) checks="C03";; C11e) checks="C20";; C07b) checks="C07 C03";; esac
   for c in $checks; do
     VERIF_REPO="$WT" ./check "$c" --tier quick > /tmp/replay_$$.log 2>&1; rc=$?
-    b=$(grep -m1 "bucket=" /tmp/replay_$$.log | sed 's/detail=.*//' | cut -c1-120)
+    b=$(grep -v KNOWN-FINDING /tmp/replay_$$.log | grep -m1 "bucket=" | sed 's/detail=.*//' | cut -c1-120)
     echo "$d check=$c rc=$rc $b" >> "$OUT"
   done
 done
